@@ -285,6 +285,14 @@ Proof.
   - rewrite py_mod_ok by auto. cbn [bind]. rewrite py_floordiv_ok by auto. cbn [bind].
     rewrite BVV_ok by lia. reflexivity.
 Qed.
+Lemma smod_zero : bvalue b = 0 -> bv_SMod a b = Err ZeroDiv.
+Proof.
+  intros Hz. unfold bv_SMod, w. pose proof Ha as Ha'. pose proof Hb as Hb'.
+  destruct Ha as [Ha1 Ha2], Hb as [Hb1 Hb2]. guards.
+  rewrite !signed_ok by (auto; lia). cbn [bind]. rewrite <- Hw in *.
+  assert (Hsb : sval (bbits a) (bvalue b) = 0) by (apply sval_zero_iff; unfold w; lia).
+  rewrite Hsb. reflexivity.
+Qed.
 End Signed.
 
 (* ---- concatenation (n-ary) ---- *)
@@ -342,27 +350,10 @@ Qed.
 
 (* ---- rotates ---- *)
 
-Lemma lt_pow2_self w : 0 <= w -> w < 2 ^ w.
-Proof. intros. apply Z.pow_gt_lin_r; lia. Qed.
-
 Lemma rsub_spec a b : wfb a -> wfb b -> bbits a = bbits b -> 0 < bbits a ->
   bvv___rsub__ a b = Ok (mkbvv (bvsub (bbits a) (bvalue b) (bvalue a)) (bbits a)).
 Proof.
   intros [Ha1 Ha2] [Hb1 Hb2] Hw Hp. unfold bvv___rsub__. guards. rewrite BVV_ok by lia. reflexivity.
-Qed.
-
-Lemma shl_disjoint_or w a k : 0 <= k <= w -> 0 <= a < 2 ^ w ->
-  Z.lor (wrap w (a * 2 ^ k)) (a / 2 ^ (w - k)) = wrap w (a * 2 ^ k) + a / 2 ^ (w - k).
-Proof.
-  intros Hk Ha. unfold wrap.
-  replace (2 ^ w) with (2 ^ (w - k) * 2 ^ k) by (rewrite <- Z.pow_add_r by lia; f_equal; lia).
-  pose proof (pow2_pos k ltac:(lia)). pose proof (pow2_pos (w - k) ltac:(lia)).
-  rewrite Z.mul_mod_distr_r by lia.
-  rewrite <- (Z.shiftl_mul_pow2 _ k) by lia.
-  rewrite lor_shiftl_add; [rewrite Z.shiftl_mul_pow2 by lia; reflexivity|lia|].
-  split; [apply Z.div_pos; lia|].
-  apply Z.div_lt_upper_bound; [lia|].
-  replace (2 ^ (w - k) * 2 ^ k) with (2 ^ w) by (rewrite <- Z.pow_add_r by lia; f_equal; lia). lia.
 Qed.
 
 Section Rotate.
